@@ -12,6 +12,7 @@ use std::collections::{BTreeMap, BTreeSet};
 pub mod cache;
 pub mod control;
 pub mod data;
+pub mod router;
 pub mod routing;
 pub mod security;
 
@@ -207,6 +208,7 @@ pub fn evaluate(spec: &Spec, completed: bool) -> Vec<Violation> {
             "c09_auth" => security::c09_auth(&mut cx),
             "c10_cancel" => security::c10_cancel(&mut cx),
             "c11_hostile" => security::c11_hostile(&mut cx),
+            "c13_commands" => router::c13_commands(&mut cx),
             "c07_bans" => routing::c07_bans(&mut cx),
             "c07_expiry" => routing::c07_expiry(&mut cx),
             other => {
